@@ -151,9 +151,12 @@ func (s *Server) Session(strm signaling.SRPCSignaling_SessionStream) error {
 		prevRemotePeer.recv, prevRemotePeer.recvSent = nil, nil
 	}
 
+	// Take the wait channel before broadcasting the registration: the broadcast
+	// closes it, so our own write loop runs once right away and tells the
+	// local peer the current state (the remote may already be attached).
+	waitCh := sess.getWaitCh()
 	sess.seqno++
 	sess.broadcast()
-	waitCh := sess.getWaitCh()
 
 	s.mtx.Unlock()
 
